@@ -25,7 +25,6 @@ package c02
 import (
 	"encoding/json"
 	"fmt"
-	"sort"
 	"strings"
 	"testing"
 
@@ -38,15 +37,10 @@ import (
 	"verif/harness/vmx"
 )
 
-// avoid switches of the open findings (KNOWN_FINDINGS.d/C02.txt)
-const (
-	avoidThis     = "this_assign"
-	avoidStrIndex = "str_index_oob"
-	avoidCompDef  = defsem.CornerCompRedef // decided by the reference unless avoided: then refused, counted
-	avoidBigSum   = defsem.CornerBigSum
-)
+// avoid switch of the open finding C02-F09 (KNOWN_FINDINGS.d/C02.txt): honoured by the generator
+const avoidDiceTail = "computed_dice_tail"
 
-var genSwitches = []string{avoidThis, avoidStrIndex}
+var genSwitches = []string{avoidDiceTail}
 
 type Step struct {
 	Prog  *gen.Node `json:"prog"`
@@ -70,49 +64,6 @@ func (c *Case) sources() []string {
 
 // ---------------------------------------------------------------------------
 // features of a program that matter for signatures and classes
-
-// classTags lists the open-finding features a program uses.  A failure of a case that contains such a
-// feature is given the signature class:<features> (DESIGN §1.7: oracle disagreements of one root cause show
-// many symptoms, so they are keyed by the generator feature, which the generator avoids while the finding is
-// open).  Every tag is narrow: it names a syntactic shape no other part of the generator produces.
-func classTags(p *gen.Node) []string {
-	tags := map[string]bool{}
-	var walk func(n *gen.Node, loop int, inIf bool)
-	walk = func(n *gen.Node, loop int, inIf bool) {
-		if n == nil {
-			return
-		}
-		switch n.K {
-		case "setthis":
-			tags[avoidThis] = true
-		}
-		switch n.K {
-		case "while":
-			walk(n.Kids[0], loop, inIf)
-			walk(n.Kids[1], loop+1, false)
-			return
-		case "if":
-			walk(n.Kids[0], loop, inIf)
-			for _, k := range n.Kids[1:] {
-				walk(k, loop, true)
-			}
-			return
-		case "func":
-			walk(n.Kids[0], 0, false)
-			return
-		}
-		for _, k := range n.Kids {
-			walk(k, loop, inIf)
-		}
-	}
-	walk(p, 0, false)
-	var out []string
-	for k := range tags {
-		out = append(out, k)
-	}
-	sort.Strings(out)
-	return out
-}
 
 // nonTrivial: >= 2 statements and at least one of control flow, user function, computed value, container
 // mutation through an alias, template with a hole, ternary chain.
@@ -140,19 +91,8 @@ const budgetText = "允许算力上限"
 const stackText = "执行栈到达溢出线"
 
 func refCfg(c vmx.Cfg, s *rt.Section) defsem.Config {
-	cfg := defsem.Config{IgnoreDiv0: c.IgnoreDiv0, Mode: c.Mode, Fate: c.Fate, Refuse: map[string]bool{}}
-	// corners of open findings that only the reference can recognise (they depend on run-time
-	// aliasing): refused while the finding is open; the exclusion is counted when one is met
-	for _, corner := range []string{avoidCompDef, avoidBigSum} {
-		if avoidOn != nil && avoidOn(corner) {
-			cfg.Refuse[corner] = true
-		}
-	}
-	return cfg
+	return defsem.Config{IgnoreDiv0: c.IgnoreDiv0, Mode: c.Mode, Fate: c.Fate}
 }
-
-// avoidOn is the run's set of avoid switches (nil during replay: a probe must show its finding).
-var avoidOn func(string) bool
 
 // srcOf builds the lookup "text this setc expression / func body was written as" from the printer's spans.
 func srcOf(src string, spans []gen.Span) func(*gen.Node) string {
@@ -253,18 +193,8 @@ func checkCase(c Case, s *rt.Section) *rt.Failure {
 	vm := c.Cfg.NewVM()
 	in := defsem.New(refCfg(c.Cfg, s))
 	in.Trace = func(ev string) { s.Class(ev) }
-	tagSet := map[string]bool{}
 	var outs []stepOut
 	for i, st := range c.Steps {
-		for _, t := range classTags(st.Prog) {
-			tagSet[t] = true
-		}
-		var tags []string
-		for t := range tagSet {
-			tags = append(tags, t)
-		}
-		sort.Strings(tags)
-
 		z := &gen.Noise{Vals: st.Noise}
 		src, spans := gen.PrintNoisy(st.Prog, z)
 		in.SrcOf = srcOf(src, spans)
@@ -273,14 +203,6 @@ func checkCase(c Case, s *rt.Section) *rt.Failure {
 		cur := &outs[len(outs)-1]
 		mkFail := func(oracle, sig, observed, expected string) *rt.Failure {
 			ob, _ := json.Marshal(outs)
-			all := append([]string(nil), tags...)
-			for ev := range in.Events {
-				all = append(all, ev)
-			}
-			sort.Strings(all)
-			if len(all) > 0 {
-				sig = "class:" + strings.Join(all, ",")
-			}
 			return s.NewFailure(oracle, sig, c, fmt.Sprintf("step %d: %s\nsteps: %s", i, observed, ob), expected)
 		}
 
@@ -357,7 +279,7 @@ func checkCase(c Case, s *rt.Section) *rt.Failure {
 		}
 	}
 	for ev := range in.Events {
-		s.Class("corner-decided:" + ev)
+		s.Class("corner:" + ev)
 	}
 	return nil
 }
@@ -425,8 +347,6 @@ func seqOpts(cfg vmx.Cfg, s *rt.Section, thorough bool) gen.Opts {
 			av[name] = true
 		}
 	}
-	o.ThisAssign = !av[avoidThis]
-	o.StrIndexOOB = !av[avoidStrIndex]
 	o.Avoid = func(name string) bool { return av[name] }
 	return o
 }
@@ -479,7 +399,6 @@ func TestProp(t *testing.T) {
 	run := rt.Begin(t, "C02")
 	defer run.Finish()
 	thorough := run.Env.Thorough()
-	avoidOn = run.AvoidOn
 
 	run.Check("seq", 20000, 200000,
 		"sequences of 1..4 generated programs (<= 7 statements + nested blocks, depth <= 3; thorough 10 / 4) on one VM, printed with rapid-drawn whitespace/parenthesis noise, min|max dice mode x IgnoreDiv0 x family flags, compared with the reference interpreter after every program (error<=>error, whole text consumed, Ret, Attrs); non-trivial = some program has >= 2 statements and uses control flow, a user function, a computed value, mutation through an alias, a template hole or a ternary chain; distinct by the printed sources",
